@@ -105,6 +105,7 @@ Proof.
   destruct ins; cbn [negb]; [|reflexivity].
   change (p_state (set_scan p sc)) with (p_state p).
   change (c_macros (p_ctx (set_scan p sc))) with (c_macros (p_ctx p)).
+  rewrite !(hash_blanks_nohash out Hh).
   rewrite (hash_prefix_false "ifdef" _ Hh), (hash_prefix_false "ifndef" _ Hh),
     (hash_prefix_false "undef" _ Hh), (hash_prefix_false "define" _ Hh).
   rewrite Hh2, (not_active _ Hst). reflexivity.
@@ -149,15 +150,17 @@ Print Assumptions skipped_text_never_errors_no_macros.
 
 (** ** unknown directives *)
 
-(** In a state that is not Active, a line that is none of the directives the machine knows
+(** ([hash_blanks out]: the scanned text once the blanks between a leading '#' and the directive
+    name are removed; [directive_name_arg]: '#' and the letters that follow, then the argument.)
+    In a state that is not Active, a line that is none of the directives the machine knows
     (not one of the four early ones before substitution, and after substitution either no
     directive at all or a directive with another name: #pragma, #warning, #line ...) is
     ignored.  This contains [skipped_text_never_errors]. *)
 Theorem skipped_unknown_directive_ignored : forall rec fs fname inc asm p line buf out ins sc,
     p_state p <> Active ->
     scan_parts (scan_line asm buf (c_scan (p_ctx p))) = (out, ins, sc) ->
-    early_directive (trim out) = false ->
-    known_directive (fst (directive_parts (trim (replace_all_c (c_macros (p_ctx p)) out)))) = false ->
+    early_directive (trim (hash_blanks out)) = false ->
+    known_directive (fst (directive_name_arg (trim (replace_all_c (c_macros (p_ctx p)) (hash_blanks out))))) = false ->
     line_step rec fs fname inc asm p line buf = POk (set_scan p sc).
 Proof.
   intros rec fs fname inc asm p line buf out ins sc Hst Hp He Hk.
@@ -171,9 +174,9 @@ Proof.
   apply orb_false_iff in He. destruct He as [He H3].
   apply orb_false_iff in He. destruct He as [H1 H2].
   rewrite H1, H2, H3, H4.
-  destruct (starts_with "#" (trim (replace_all_c (c_macros (p_ctx p)) out))).
+  destruct (starts_with "#" (trim (replace_all_c (c_macros (p_ctx p)) (hash_blanks out)))).
   2:{ rewrite (not_active _ Hst). reflexivity. }
-  destruct (directive_parts (trim (replace_all_c (c_macros (p_ctx p)) out))) as [name arg].
+  destruct (directive_name_arg (trim (replace_all_c (c_macros (p_ctx p)) (hash_blanks out)))) as [name arg].
   cbn [fst] in Hk. unfold known_directive in Hk. cbn [existsb] in Hk.
   repeat (apply orb_false_iff in Hk; destruct Hk as [?Hn Hk]).
   rewrite Hn, Hn0, Hn1, Hn2, Hn3, Hn4, (not_active _ Hst). reflexivity.
@@ -184,9 +187,9 @@ Print Assumptions skipped_unknown_directive_ignored.
 Theorem unknown_directive_selected_is_error : forall rec fs fname inc asm p line buf out sc,
     p_state p = Active ->
     scan_line asm buf (c_scan (p_ctx p)) = ScanOk out true sc ->
-    early_directive (trim out) = false ->
-    starts_with "#" (trim (replace_all_c (c_macros (p_ctx p)) out)) = true ->
-    known_directive (fst (directive_parts (trim (replace_all_c (c_macros (p_ctx p)) out)))) = false ->
+    early_directive (trim (hash_blanks out)) = false ->
+    starts_with "#" (trim (replace_all_c (c_macros (p_ctx p)) (hash_blanks out))) = true ->
+    known_directive (fst (directive_name_arg (trim (replace_all_c (c_macros (p_ctx p)) (hash_blanks out))))) = false ->
     line_step rec fs fname inc asm p line buf
     = PErr (mkErr ESyntax fname line inc "Unrecognised preprocessor directive").
 Proof.
@@ -199,7 +202,7 @@ Proof.
   apply orb_false_iff in He. destruct He as [He H3].
   apply orb_false_iff in He. destruct He as [H1 H2].
   rewrite H1, H2, H3, H4, Hh.
-  destruct (directive_parts (trim (replace_all_c (c_macros (p_ctx p)) out))) as [name arg].
+  destruct (directive_name_arg (trim (replace_all_c (c_macros (p_ctx p)) (hash_blanks out)))) as [name arg].
   cbn [fst] in Hk. unfold known_directive in Hk. cbn [existsb] in Hk.
   repeat (apply orb_false_iff in Hk; destruct Hk as [?Hn Hk]).
   rewrite Hn, Hn0, Hn1, Hn2, Hn3, Hn4, Hst. reflexivity.
@@ -223,34 +226,18 @@ Proof.
       inversion Hs; subst. cbn [append]. rewrite <- (IHs b r eq_refl). reflexivity.
 Qed.
 
-Lemma split_blank_app : forall s w r, split_blank s = Some (w, r) -> exists c, s = w ++ String c r.
+Lemma directive_name_hash : forall t z arg,
+    directive_name_arg t = (String "#" z, arg) -> starts_with "#" t = true.
 Proof.
-  induction s as [|a s IHs]; intros w r Hs; cbn [split_blank] in Hs; [discriminate|].
-  destruct (is_blank_or_tab a).
-  - inversion Hs; subst. exists a. reflexivity.
-  - destruct (split_blank s) as [[b t]|]; [|discriminate]. inversion Hs; subst.
-    destruct (IHs _ _ eq_refl) as [c Hc]. exists c. cbn [append]. rewrite <- Hc. reflexivity.
-Qed.
-
-Lemma directive_name_prefix : forall t name arg,
-    directive_parts t = (name, arg) -> exists x, t = name ++ x.
-Proof.
-  intros t name arg Hd. unfold directive_parts in Hd.
+  intros t z arg Hd. unfold directive_name_arg in Hd.
   assert (Hb : exists y, t = before "//" t ++ y).
   { unfold before. destruct (split_once "//" t) as [[b r]|] eqn:Hs.
     - apply split_once_app in Hs. exists ("//" ++ r). exact Hs.
     - exists "". symmetry. apply app_empty_r. }
   destruct Hb as [y Hy].
-  destruct (split_blank (before "//" t)) as [[w r]|] eqn:Hs.
-  - inversion Hd; subst name. apply split_blank_app in Hs. destruct Hs as [c Hs].
-    exists (String c r ++ y). rewrite <- app_assoc_s, <- Hs. exact Hy.
-  - inversion Hd; subst name. exists y. exact Hy.
-Qed.
-
-Lemma directive_name_hash : forall t z arg,
-    directive_parts t = (String "#" z, arg) -> starts_with "#" t = true.
-Proof.
-  intros t z arg Hd. destruct (directive_name_prefix _ _ _ Hd) as [x Hx]. rewrite Hx. reflexivity.
+  destruct (before "//" t) as [|h r]; [discriminate|].
+  cbv beta iota zeta in Hd. destruct (take_alpha r) as [w rest]. inversion Hd; subst h.
+  rewrite Hy. reflexivity.
 Qed.
 
 (** #if in a state that is not Active: the state is pushed and becomes Skip, whether an
@@ -259,8 +246,8 @@ Qed.
 Theorem skipped_if_pushes_skip : forall rec fs fname inc asm p line buf out sc arg,
     p_state p <> Active ->
     scan_parts (scan_line asm buf (c_scan (p_ctx p))) = (out, true, sc) ->
-    early_directive (trim out) = false ->
-    directive_parts (trim (replace_all_c (c_macros (p_ctx p)) out)) = ("#if", arg) ->
+    early_directive (trim (hash_blanks out)) = false ->
+    directive_name_arg (trim (replace_all_c (c_macros (p_ctx p)) (hash_blanks out))) = ("#if", arg) ->
     line_step rec fs fname inc asm p line buf
     = POk (set_state (set_scan p sc) Skip (p_state p :: p_stack p)).
 Proof.
@@ -284,8 +271,8 @@ Print Assumptions skipped_if_pushes_skip.
 Corollary skipped_if_without_expression : forall rec fs fname inc asm p line buf out sc,
     p_state p <> Active ->
     scan_parts (scan_line asm buf (c_scan (p_ctx p))) = (out, true, sc) ->
-    early_directive (trim out) = false ->
-    directive_parts (trim (replace_all_c (c_macros (p_ctx p)) out)) = ("#if", None) ->
+    early_directive (trim (hash_blanks out)) = false ->
+    directive_name_arg (trim (replace_all_c (c_macros (p_ctx p)) (hash_blanks out))) = ("#if", None) ->
     line_step rec fs fname inc asm p line buf
     = POk (set_state (set_scan p sc) Skip (p_state p :: p_stack p)).
 Proof. intros. eapply skipped_if_pushes_skip; eassumption. Qed.
@@ -295,8 +282,8 @@ Print Assumptions skipped_if_without_expression.
 Theorem if_without_expression_selected_is_error : forall rec fs fname inc asm p line buf out sc,
     p_state p = Active ->
     scan_line asm buf (c_scan (p_ctx p)) = ScanOk out true sc ->
-    early_directive (trim out) = false ->
-    directive_parts (trim (replace_all_c (c_macros (p_ctx p)) out)) = ("#if", None) ->
+    early_directive (trim (hash_blanks out)) = false ->
+    directive_name_arg (trim (replace_all_c (c_macros (p_ctx p)) (hash_blanks out))) = ("#if", None) ->
     line_step rec fs fname inc asm p line buf
     = PErr (mkErr ESyntax fname line inc "Expected expression after `#if`").
 Proof.
@@ -322,8 +309,8 @@ Print Assumptions if_without_expression_selected_is_error.
 Theorem elif_not_inactive_skips : forall rec fs fname inc asm p line buf out sc arg,
     p_state p <> Inactive ->
     scan_gives (p_state p) (scan_line asm buf (c_scan (p_ctx p))) out true sc ->
-    early_directive (trim out) = false ->
-    directive_parts (trim (replace_all_c (c_macros (p_ctx p)) out)) = ("#elif", arg) ->
+    early_directive (trim (hash_blanks out)) = false ->
+    directive_name_arg (trim (replace_all_c (c_macros (p_ctx p)) (hash_blanks out))) = ("#elif", arg) ->
     line_step rec fs fname inc asm p line buf = POk (set_state (set_scan p sc) Skip (p_stack p)).
 Proof.
   intros rec fs fname inc asm p line buf out sc arg Hst Hg He Hd.
@@ -348,8 +335,8 @@ Print Assumptions elif_not_inactive_skips.
 Corollary skipped_elif_without_expression : forall rec fs fname inc asm p line buf out sc,
     p_state p = Skip ->
     scan_parts (scan_line asm buf (c_scan (p_ctx p))) = (out, true, sc) ->
-    early_directive (trim out) = false ->
-    directive_parts (trim (replace_all_c (c_macros (p_ctx p)) out)) = ("#elif", None) ->
+    early_directive (trim (hash_blanks out)) = false ->
+    directive_name_arg (trim (replace_all_c (c_macros (p_ctx p)) (hash_blanks out))) = ("#elif", None) ->
     line_step rec fs fname inc asm p line buf = POk (set_state (set_scan p sc) Skip (p_stack p)).
 Proof.
   intros rec fs fname inc asm p line buf out sc Hst Hp He Hd.
@@ -364,8 +351,8 @@ Print Assumptions skipped_elif_without_expression.
 Theorem elif_without_expression_inactive_is_error : forall rec fs fname inc asm p line buf out sc,
     p_state p = Inactive ->
     scan_parts (scan_line asm buf (c_scan (p_ctx p))) = (out, true, sc) ->
-    early_directive (trim out) = false ->
-    directive_parts (trim (replace_all_c (c_macros (p_ctx p)) out)) = ("#elif", None) ->
+    early_directive (trim (hash_blanks out)) = false ->
+    directive_name_arg (trim (replace_all_c (c_macros (p_ctx p)) (hash_blanks out))) = ("#elif", None) ->
     line_step rec fs fname inc asm p line buf
     = PErr (mkErr ESyntax fname line inc "Expected expression after `#elif`").
 Proof.
@@ -434,3 +421,38 @@ Example scan_unterminated_parts :
   scan_line false ("#endif ""open" ++ nl) (mkScan false 0 []) = ScanUnterminated "#endif " true (mkScan false 0 [])
   /\ scan_line false ("a ""b"" c ""d" ++ nl) (mkScan false 3 []) = ScanUnterminated "a @3@ c " true (mkScan false 4 ["b"]).
 Proof. vm_compute. split; reflexivity. Qed.
+
+(** ** blanks after the '#', and directive names that end at the first non-letter *)
+
+(** "# else" is #else: the group that was not selected ends there *)
+Example blank_after_hash_else_example :
+  match run_cpp [] "m.c" [] (map (fun l => l ++ nl) ["#if 0"; "A"; "# else"; "B"; "#endif"; "tail"]) with
+  | POk p => p_out p = "B" ++ nl ++ "tail" ++ nl /\ p_state p = Active /\ p_stack p = []
+  | PErr _ => False
+  end.
+Proof. vm_compute. repeat split; reflexivity. Qed.
+
+(** "#if!FOO" is an #if: inside a group that is not selected it counts as an opener, and its
+    #endif closes it, not the outer group *)
+Example nested_if_bang_example :
+  match run_cpp [] "m.c" [] (map (fun l => l ++ nl) ["#if 0"; "#if!FOO"; "x"; "#endif"; "#endif"; "tail"]) with
+  | POk p => p_out p = "tail" ++ nl /\ p_state p = Active /\ p_stack p = []
+  | PErr _ => False
+  end.
+Proof. vm_compute. repeat split; reflexivity. Qed.
+
+(** "#if!N" with N defined as 1 is "#if !1": the else branch is selected *)
+Example if_bang_defined_example :
+  match run_cpp [] "m.c" [("N", "1")] (map (fun l => l ++ nl) ["#if!N"; "a"; "#else"; "b"; "#endif"]) with
+  | POk p => p_out p = "b" ++ nl
+  | PErr _ => False
+  end
+  /\ match run_cpp [] "m.c" [("N", "0")] (map (fun l => l ++ nl) ["#if!N"; "a"; "#else"; "b"; "#endif"]) with
+     | POk p => p_out p = "a" ++ nl
+     | PErr _ => False
+     end
+  (* "#if(A)" is #if with the argument "(A)", which reaches the evaluator (it knows no
+     parentheses; the line used to be an unknown directive) *)
+  /\ run_cpp [] "m.c" [("A", "1")] (map (fun l => l ++ nl) ["#if(A)"; "a"; "#endif"])
+     = PErr (mkErr ESyntax "m.c" 1 None "Expected term, found nothing").
+Proof. vm_compute. repeat split; reflexivity. Qed.
